@@ -306,6 +306,11 @@ func (s *ProofStructure) CommitmentsFromSecrets(g *gabikeys.PublicKey, m, mRando
 		mRandomizer: mRandomizer,
 	}
 
+	// the squares must fit in ld bits each: a larger difference cannot be proven, and splitting it takes time
+	// exponential in its length (a verifier's bound of 20000 bits kept the holder busy for good)
+	if d.BitLen() > 2*int(s.ld)+2 {
+		return nil, nil, errors.New("difference too large for this range proof")
+	}
 	commit.d, err = s.splitter.Split(d)
 	if err != nil {
 		return nil, nil, err
